@@ -664,7 +664,7 @@ func RandIntn(n int) int {
 	}
 	w.randCtr++
 	v := 1000 + w.randCtr
-	w.event(w.cur, KRand, w.namedObj("\x00rand"), true, uint64(v))
+	w.hashEvent(w.cur, KRand, w.namedObj("\x00rand"), uint64(v))
 	if n > 0 && v >= n {
 		v = v % n
 	}
